@@ -84,6 +84,19 @@ theorem ordered_items_witness :
   ⟨.obj "FM" (.cons (.dict [("a", "1"), ("b", "2")]) .nil),
    .obj "FM" (.cons (.dict [("b", "2"), ("a", "1")]) .nil), by decide, by decide⟩
 
+/-- A class that compares a graph by its (order-free) content but hashes an iteration over it in
+    insertion order (`tuple(g.edges.data('rate'))`): equal systems whose flows were added in a different
+    order hash differently. -/
+def specOrderedContent : ClassSpec :=
+  { name := "CS", hashGuard := false, fields := [
+      { name := "_g", cmp := some .content, hash := some .orderedContent, kind := .ident } ] }
+
+theorem ordered_content_witness :
+    ∃ a b, eqV [specOrderedContent] a b = true ∧
+      keyEqv (hashKey [specOrderedContent] a) (hashKey [specOrderedContent] b) = false :=
+  ⟨.obj "CS" (.cons (.ident 1 "n|e#out;c2p;p2c") .nil),
+   .obj "CS" (.cons (.ident 2 "n|e#p2c;c2p;out") .nil), by decide +kernel, by decide +kernel⟩
+
 /-- The repaired shapes of /repo (3364a47 `hash(frozenset(items()))`, d2e36d7 `frozenset(g.nodes)`) satisfy
     the law on the same objects: the keys are equivalent. -/
 example :
